@@ -44,6 +44,9 @@ func init() {
 		},
 		Rules: []RuleDef{
 			{ID: "R02a", Floor: 3 + 4 + 1 + 1, Doc: "hash gate: block-yielding returns of verifying iterators are dominated by the true outcome of hashed.Equals(c) for the returned (c,data); TrustedCAR read only by BlockReader.Next; loaders store only results of Next; Inspect counts a block only behind gotCid.Equals(c)", Run: ruleR02a},
+			{ID: "R02c", Floor: 1, Doc: "an explicit clean end (return io.EOF for a zero-length section) is taken only on the success outcome of the length read", Run: ruleR02c},
+			{ID: "R02d", Floor: 8, Doc: "framing readers return freshly allocated, fully read buffers and decode the CID from them (= R01b): a block cannot alias a reused buffer", Run: ruleR01b},
+			{ID: "R02e", Floor: 3, Doc: "single-byte adapters read with io.ReadFull: a Read may deliver its last byte together with io.EOF", Run: ruleR02e},
 			{ID: "R02b", Floor: 5, Doc: "EOF sanitisation: the error of a section-body read from the stream reaches a return only along the not-equal outcome of a comparison with io.EOF (or after being replaced/wrapped)", Run: ruleR02b},
 		},
 	})
@@ -134,44 +137,46 @@ func checkHashGate(c *Ctx, r *Report, fn *ssa.Function, bypass bool) {
 		}
 		data, cidv := call.Call.Args[0], call.Call.Args[1]
 		// find Equals(hashed, c) with hashed from Prefix(c).Sum(data)
-		found := false
-		eq := condEdges(fn, func(base ssa.Value) (bool, bool) {
-			ec, _ := callOf(base)
-			if ec == nil || !funcIs(calleeFunc(ec.Common()), pkgCid, "Cid", "Equals") {
-				return false, false
-			}
-			args := callArgs(ec.Common())
-			if len(args) != 2 {
-				return false, false
-			}
-			// one side is c, the other is hashed (Equals is symmetric)
-			var hashed ssa.Value
-			switch {
-			case sameValue(args[1], cidv):
-				hashed = args[0]
-			case sameValue(args[0], cidv):
-				hashed = args[1]
-			default:
-				return false, false
-			}
-			sc, si := callOf(canon(hashed))
-			if sc == nil || si != 0 || !funcIs(calleeFunc(sc.Common()), pkgCid, "Prefix", "Sum") {
-				return false, false
-			}
-			sargs := callArgs(sc.Common())
-			if len(sargs) != 2 || !sameValue(sargs[1], data) {
-				return false, false
-			}
-			pc, _ := callOf(canon(sargs[0]))
-			if pc == nil || !funcIs(calleeFunc(pc.Common()), pkgCid, "Cid", "Prefix") {
-				return false, false
-			}
-			if !sameValue(callArgs(pc.Common())[0], cidv) {
-				return false, false
-			}
-			found = true
-			return true, true
-		})
+		eq, found := hashEqualsEdges(fn, cidv, data)
+		if !found {
+			// the check may live in an unexported helper: err == nil of helper(c, data) is then the gate,
+			// provided every nil return of the helper is behind its own Equals(Sum(data)) == c outcome
+			eachInstr(fn, func(in ssa.Instruction) {
+				ci, ok := in.(*ssa.Call)
+				if !ok || found {
+					return
+				}
+				h := ci.Common().StaticCallee()
+				if h == nil || h.Blocks == nil || h.Pkg != fn.Pkg {
+					return
+				}
+				ci2, di := -1, -1
+				for i, a := range ci.Call.Args {
+					if sameValue(a, cidv) {
+						ci2 = i
+					}
+					if sameValue(a, data) {
+						di = i
+					}
+				}
+				if ci2 < 0 || di < 0 || ci2 >= len(h.Params) || di >= len(h.Params) {
+					return
+				}
+				heq, hfound := hashEqualsEdges(h, h.Params[ci2], h.Params[di])
+				if !hfound {
+					return
+				}
+				hreach := reach(h, nil, edgeSet(heq))
+				for _, hret := range returnsOf(h) {
+					ev := hret.Results[len(hret.Results)-1]
+					if isNilConst(ev) && hreach[hret.Block()] {
+						return
+					}
+				}
+				eq = condEdges(fn, errNilCond(errOfCall(ci), true))
+				found = len(eq) > 0
+			})
+		}
 		if !found {
 			r.Viol(key, c.Pos(ret.Pos()), "no branch on c.Prefix().Sum(data).Equals(c) over the returned c and data exists in this iterator")
 			return
@@ -190,6 +195,48 @@ func checkHashGate(c *Ctx, r *Report, fn *ssa.Function, bypass bool) {
 		}
 	}
 	r.Hold(key, pos, fmt.Sprintf("%d block-yielding return(s) all behind hashed.Equals(c) over the returned values", len(yielding)))
+}
+
+// hashEqualsEdges: the true-outcome edges of `Prefix(c).Sum(data) Equals c` in fn.
+func hashEqualsEdges(fn *ssa.Function, cidv, data ssa.Value) ([]Edge, bool) {
+	found := false
+	eq := condEdges(fn, func(base ssa.Value) (bool, bool) {
+		ec, _ := callOf(base)
+		if ec == nil || !funcIs(calleeFunc(ec.Common()), pkgCid, "Cid", "Equals") {
+			return false, false
+		}
+		args := callArgs(ec.Common())
+		if len(args) != 2 {
+			return false, false
+		}
+		var hashed ssa.Value
+		switch {
+		case sameValue(args[1], cidv):
+			hashed = args[0]
+		case sameValue(args[0], cidv):
+			hashed = args[1]
+		default:
+			return false, false
+		}
+		sc, si := callOf(canon(hashed))
+		if sc == nil || si != 0 || !funcIs(calleeFunc(sc.Common()), pkgCid, "Prefix", "Sum") {
+			return false, false
+		}
+		sargs := callArgs(sc.Common())
+		if len(sargs) != 2 || !sameValue(sargs[1], data) {
+			return false, false
+		}
+		pc, _ := callOf(canon(sargs[0]))
+		if pc == nil || !funcIs(calleeFunc(pc.Common()), pkgCid, "Cid", "Prefix") {
+			return false, false
+		}
+		if !sameValue(callArgs(pc.Common())[0], cidv) {
+			return false, false
+		}
+		found = true
+		return true, true
+	})
+	return eq, found
 }
 
 // checkLoader: everything handed to s.Put / s.PutMany came out of cr.Next() of the
@@ -679,4 +726,64 @@ func checkSkipSeekBound(c *Ctx, r *Report, fn *ssa.Function) {
 		bad = "no assignment of br.readerSize found"
 	}
 	r.Check(bad == "", key2, pos, "readerSize ∈ {-1, DataOffset+DataSize, Seek(0, SeekEnd)}", bad)
+}
+
+// ruleR02c: in the length readers an explicit io.EOF (the zero-length-section
+// option) may be returned only where the varint read itself succeeded; otherwise
+// decode errors and truncations inside the prefix are reported as a clean end.
+func ruleR02c(c *Ctx, r *Report) {
+	fn, err := c.Func(pkgV1Util, "", "LdReadSize")
+	if err != nil {
+		r.InfraFail("%v", err)
+		return
+	}
+	key := "explicit-eof@" + fnKey(fn)
+	rd := callsToFunc(fn, pkgVarint, "", "ReadUvarint")
+	if len(rd) != 1 {
+		r.Undec(key, c.Pos(fn.Pos()), "expected one varint.ReadUvarint")
+		return
+	}
+	errv := extractOf(rd[0].Value(), 1)
+	okEdges := condEdges(fn, errNilCond(errOfCall(rd[0]), true))
+	reachable := reach(fn, nil, edgeSet(okEdges))
+	bad := ""
+	n := 0
+	for _, ret := range returnsOf(fn) {
+		ev := canon(ret.Results[len(ret.Results)-1])
+		if !isGlobalLoad(ev, "io", "EOF") {
+			continue
+		}
+		n++
+		if reachable[ret.Block()] {
+			bad = fmt.Sprintf("the explicit clean end (return io.EOF) at %s is reachable although the length read failed: a truncation or corruption inside a length prefix is reported as a clean end of archive when ZeroLengthSectionAsEOF is on", c.Pos(ret.Pos()))
+		}
+	}
+	_ = errv
+	if n == 0 {
+		r.Exempt(key, c.Pos(fn.Pos()), "no explicit io.EOF return (zero-length option handled elsewhere)")
+		return
+	}
+	r.Check(bad == "", key, c.Pos(fn.Pos()), fmt.Sprintf("%d explicit io.EOF return(s), all behind err == nil of the varint read", n), bad)
+}
+
+// ruleR02e: the ReadByte adapters of internal/io.
+func ruleR02e(c *Ctx, r *Report) {
+	for _, t := range []string{"readerPlusByte", "readSeekerPlusByte", "discardingReadSeekerPlusByte"} {
+		fn, err := c.Func(pkgIntIO, t, "ReadByte")
+		if err != nil {
+			r.InfraFail("%v", err)
+			continue
+		}
+		key := "readbyte-full@" + fnKey(fn)
+		nFull := len(callsToFunc(fn, "io", "", "ReadFull"))
+		direct := 0
+		eachInstr(fn, func(in ssa.Instruction) {
+			if ci, ok := in.(*ssa.Call); ok {
+				if f := calleeFunc(ci.Common()); f != nil && f.Name() == "Read" {
+					direct++
+				}
+			}
+		})
+		r.Check(nFull == 1 && direct == 0, key, c.Pos(fn.Pos()), "one byte obtained with io.ReadFull", "ReadByte issues a bare Read: an io.Reader may return (1, io.EOF) for its last byte, which the varint decoder then takes for a clean end although a byte was delivered")
+	}
 }
